@@ -22,4 +22,9 @@ TEXT['C04'] = dict(
     note=TIE + ' aho-corasick standard semantics and the mailmap line regex are hand-modelled and validated by the correspondence only. Header preservation/message framing in the stream loop are covered by the stream-level correspondence.',
     technique='Lean 4 theorems over a byte-level model (UTF-8 validity, Unicode whitespace, i64 saturation); differential fn-level correspondence')
 
+TEXT['C02'] = dict(
+    text='Lean theorems over the model of commit.rs: the keep/prune decision equals the documented table for every input (dropped iff has parent and mark, no surviving change, fewer than two parents left, and the prune-empty/prune-degenerate/no-ff setting allows it); the rewritten parent list is exactly the first-occurrence de-duplication of the images (through the alias map) of the original parents restricted to emitted marks, in original order, with no invented parent and the first kept parent promoted to `from`. Correspondence: the whole decision table exhaustively, and generated parent lists × emitted sets × alias maps (chains, cycles) against finalize_parent_lines through the hook.',
+    note=TIE + ' The graph-level statement (parents of the imported commit, pruned commit contracted onto its first parent, roots stay roots) additionally relies on the stream-level correspondence and the importer contract.',
+    technique='Lean 4 theorems (case analysis of the decision table; induction over parent lists); exhaustive + generated differential correspondence')
+
 NOT_YET = {}
